@@ -1,67 +1,135 @@
 /-
-  Rws.ContentDisposition — model of `ContentDisposition::parse`
-  (src/header/content_disposition/mod.rs): split on `;`, the first piece is the type
-  (inline | attachment | form-data, compared exactly), the second and third pieces are
-  `key=value` with `key.trim()` ∈ {filename, name} and quotation marks removed from the value.
+  Rws.ContentDisposition — model of `src/header/content_disposition/mod.rs`.
+
+  `parse`      ↔ `ContentDisposition::parse(raw: &str) -> Result<ContentDisposition, String>`
+  `property`   ↔ the block the function repeats for `parts.get(1)` and `parts.get(2)`:
+                 `split_once("=")`, `key.trim()`, `key == "filename"` / `key == "name"`,
+                 `value.to_string().replace("\"", "")`
+  `asString`   ↔ `ContentDisposition::as_string(&self) -> Result<String, String>`
+  `CD`         ↔ `struct ContentDisposition { disposition_type, field_name, file_name }`
+
+  The function, statement by statement (quirks included):
+
+  * `raw.split(";")` — on EVERY semicolon, also one inside a quoted value; Rust's `split` yields
+    at least one piece, so the `parts.len() == 0` branch is dead and `parts.get(0).unwrap()` cannot
+    panic (`splitAll` returns a non-empty list: the model keeps the `[]` case as the panic site so
+    that the totality theorem shows it unreachable instead of assuming it);
+  * the first piece is compared, UNtrimmed and case-sensitively, with the three type words
+    (regenerated from `DISPOSITION_TYPE`: `Rws.Gen.Cdisp`); anything else is an error;
+  * second piece: no `=` → error; key trimmed with `str::trim` (Unicode `White_Space`,
+    `Rws.Utf8.trim`), value NOT trimmed, every `"` removed; a key that is neither `filename` nor
+    `name` is silently ignored;
+  * third piece: the same, but an unknown key is an error; `filename` / `name` given twice: the
+    later one wins; pieces after the third are ignored;
+  * `form-data` without `name` is an error.
+
+  Rust `&str` / `String` are UTF-8 byte lists.  Splitting on the ASCII bytes `;` `=` `"` and
+  trimming by `Rws.Utf8.trim` are exact on valid UTF-8 (the only inputs a `&str` can hold): an
+  ASCII byte never occurs inside a multi-byte sequence.  Error texts are dropped.
 -/
 import Rws.Prim
 import Rws.Utf8
+import Rws.Gen.CdispTab
+import Rws.Gen.HeaderTab
+
 namespace Rws.ContentDisposition
 open Rws
 
 structure CD where
   dispositionType : Bytes
   fieldName : Option Bytes
-  fileName  : Option Bytes
-deriving Repr, DecidableEq
+  fileName : Option Bytes
+deriving Repr, DecidableEq, Inhabited
 
-def tInline : Bytes := [105, 110, 108, 105, 110, 101]
-def tAttachment : Bytes := [97, 116, 116, 97, 99, 104, 109, 101, 110, 116]
-def tFormData : Bytes := [102, 111, 114, 109, 45, 100, 97, 116, 97]
-def kFilename : Bytes := [102, 105, 108, 101, 110, 97, 109, 101]
-def kName : Bytes := [110, 97, 109, 101]
+/-- `value.to_string().replace("\"", "")` -/
+def unquote (v : Bytes) : Bytes := v.filter (fun b => b != 34)
 
-def unquoteAll (v : Bytes) : Bytes := v.filter (· != 34)
-
-/-- one `key=value` piece: `none` = no `=`; otherwise (isFilename, isName, value without quotes) -/
-def piece (p : Bytes) : Option (Bool × Bool × Bytes) :=
-  match splitOnce p [61] with
+/-- one `parts.get(i)` block: `none` when the element has no `=`; otherwise the updated
+    `(filename, fieldname)` pair and whether the key was one of the two known words -/
+def property (elem : Bytes) (filename fieldname : Option Bytes) :
+    Option (Option Bytes × Option Bytes × Bool) :=
+  match splitOnce elem [61] with
   | none => none
-  | some (k, v) =>
-    let key := Utf8.trim k
-    some (key = kFilename, key = kName, unquoteAll v)
+  | some (key, value) =>
+    let key := Utf8.trim key
+    let isFilename := key == Gen.Cdisp.keyFilename
+    let isName := key == Gen.Cdisp.keyName
+    let filename := if isFilename then some (unquote value) else filename
+    let fieldname := if isName then some (unquote value) else fieldname
+    some (filename, fieldname, isFilename || isName)
 
+/-- the tail of `parse` after the type word was accepted -/
+def finish (dtype : Bytes) (filename fieldname : Option Bytes) : Outcome CD :=
+  if dtype == Gen.Cdisp.formData && fieldname.isNone then .err
+  else .ok ⟨dtype, fieldname, filename⟩
+
+/-- `ContentDisposition::parse` -/
 def parse (raw : Bytes) : Outcome CD :=
-  let parts := splitAll [59] raw
-  match parts with
-  | [] => .err
-  | ty :: rest =>
-    if ty ≠ tInline && ty ≠ tAttachment && ty ≠ tFormData then .err
+  match splitAll [59] raw with
+  | [] => .panic "header/content_disposition/mod.rs:97"
+  | dtype :: rest =>
+    if dtype != Gen.Cdisp.inline && dtype != Gen.Cdisp.attachment && dtype != Gen.Cdisp.formData then .err
     else
-      -- second element
-      let s2 : Outcome (Option Bytes × Option Bytes) :=
-        match rest[0]? with
-        | none => .ok (none, none)
-        | some p => match piece p with
-          | none => .err
-          | some (isF, isN, v) => .ok (if isF then some v else none, if isN then some v else none)
-      match s2 with
-      | .err => .err
-      | .panic s => .panic s
-      | .ok (fn1, nm1) =>
-        let s3 : Outcome (Option Bytes × Option Bytes) :=
-          match rest[1]? with
-          | none => .ok (fn1, nm1)
-          | some p => match piece p with
+      match rest with
+      | [] => finish dtype none none
+      | second :: rest2 =>
+        match property second none none with
+        | none => .err
+        | some (filename, fieldname, _) =>
+          match rest2 with
+          | [] => finish dtype filename fieldname
+          | third :: _ =>
+            match property third filename fieldname with
             | none => .err
-            | some (isF, isN, v) =>
-              if !isF && !isN then .err
-              else .ok (if isF then some v else fn1, if isN then some v else nm1)
-        match s3 with
-        | .err => .err
-        | .panic s => .panic s
-        | .ok (fn, nm) =>
-          if ty = tFormData && nm = none then .err
-          else .ok ⟨ty, nm, fn⟩
+            | some (filename, fieldname, known) =>
+              if !known then .err else finish dtype filename fieldname
+
+/-- `"{}: {}"` with the header name constant -/
+def headLine (dtype : Bytes) : Bytes := Gen.Hdr.hContentDisposition ++ [58, 32] ++ dtype
+
+/-- `; name="…"` -/
+def nameParam (v : Bytes) : Bytes := [59, 32, 110, 97, 109, 101, 61, 34] ++ v ++ [34]
+/-- `; filename="…"` -/
+def filenameParam (v : Bytes) : Bytes := [59, 32, 102, 105, 108, 101, 110, 97, 109, 101, 61, 34] ++ v ++ [34]
+
+/-- the `if is_inline { … }` block: `formatted` after it -/
+def stageInline (c : CD) (formatted : Bytes) : Outcome Bytes :=
+  if c.dispositionType == Gen.Cdisp.inline then
+    if c.fileName.isSome then .err
+    else if c.fieldName.isSome then .err
+    else .ok (headLine c.dispositionType)
+  else .ok formatted
+
+/-- the `if is_attachment { … }` block -/
+def stageAttachment (c : CD) (formatted : Bytes) : Outcome Bytes :=
+  if c.dispositionType == Gen.Cdisp.attachment then
+    if c.fieldName.isSome then .err
+    else match c.fileName with
+      | some f => .ok (headLine c.dispositionType ++ filenameParam f)
+      | none => .ok (headLine c.dispositionType)
+  else .ok formatted
+
+/-- the `if is_form_data { … }` block -/
+def stageFormData (c : CD) (formatted : Bytes) : Outcome Bytes :=
+  if c.dispositionType == Gen.Cdisp.formData then
+    match c.fieldName with
+    | none => .err
+    | some n =>
+      match c.fileName with
+      | some f => .ok (headLine c.dispositionType ++ nameParam n ++ filenameParam f)
+      | none => .ok (headLine c.dispositionType ++ nameParam n)
+  else .ok formatted
+
+/-- `ContentDisposition::as_string`: `formatted = ""`, then the three independent `if` blocks in
+    source order; a type that is none of the three words answers `Ok("")` -/
+def asString (c : CD) : Outcome Bytes :=
+  match stageInline c [] with
+  | .ok f1 =>
+    match stageAttachment c f1 with
+    | .ok f2 => stageFormData c f2
+    | .err => .err
+    | .panic s => .panic s
+  | .err => .err
+  | .panic s => .panic s
 
 end Rws.ContentDisposition
